@@ -288,6 +288,8 @@ def run_entry(e, quick, acc):
                         raws = [_st.pack(fmt, v) for v in vals]
                     elif dom is None:
                         raws = [b"\xff" * f.size, bytes([0x41]) * f.size]
+                        if f.size >= 2 and f.typ[0] in "CX":
+                            raws += [b"A" + b" " * (f.size - 1), b" " * f.size, b"A" * (f.size - 1) + b"\x00", b" " + b"A" * (f.size - 1), b"\x00" + b"A" * (f.size - 1)]
                     else:
                         raws = [r.to_bytes(f.size, "little", signed=f.typ[0] == "I") for r in dom]
                     for rb in raws:
